@@ -102,3 +102,41 @@ func contextualOrderCases() []splitCase {
 	}
 	return out
 }
+
+// Scripted cases for C01 / C02: a recursive relation that also admits usersets of ANOTHER relation
+// whose members are of a different subject type (so that relation has no path to the request's user
+// type).  Strategies that follow usersets "by object" must not mistake such a userset for the
+// recursive one.  (Found by a sub-agent probing the unmodified code: the recursive strategy granted
+// group:1#member@user:anne through group:1#member@group:2#owner and group:2#member@user:anne.)
+func recursiveOtherUsersetCases() []scriptedCase {
+	this := &Rewrite{K: "this"}
+	var out []scriptedCase
+	for i, ownerRestr := range [][]Restr{{{T: "employee"}}, {{T: "employee"}, {T: "employee", WC: true}}} {
+		m := &Model{Types: []string{"user", "employee", "group", "folder"}, Conds: []CondDef{}, Rels: []RelDef{
+			{T: "group", R: "owner", Rw: this, Restr: ownerRestr},
+			{T: "group", R: "member", Rw: this, Restr: []Restr{{T: "user"}, {T: "group", Rel: "member"}, {T: "group", Rel: "owner"}}},
+			{T: "folder", R: "owner", Rw: this, Restr: ownerRestr},
+			{T: "folder", R: "parent", Rw: this, Restr: []Restr{{T: "folder"}}},
+			{T: "folder", R: "viewer", Rw: &Rewrite{K: "union", Ch: []*Rewrite{this, {K: "ttu", TS: "parent", Rel: "viewer"}}}, Restr: []Restr{{T: "user"}, {T: "folder", Rel: "owner"}}},
+		}}
+		ts := []Tuple{
+			tp("group:1", "member", "group:2#owner"), tp("group:2", "member", "user:anne"), tp("group:2", "owner", "employee:e1"),
+			tp("group:3", "member", "group:2#member"), tp("group:2", "member", "group:4#member"), tp("group:4", "member", "user:bob"),
+			tp("group:5", "member", "group:4#owner"),
+			tp("folder:1", "viewer", "folder:2#owner"), tp("folder:2", "viewer", "user:anne"), tp("folder:3", "parent", "folder:2"), tp("folder:4", "parent", "folder:1"),
+		}
+		var reqs []Req
+		for _, o := range []string{"group:1", "group:2", "group:3", "group:5"} {
+			for _, u := range []string{"user:anne", "user:bob", "employee:e1"} {
+				reqs = append(reqs, Req{O: ParseObj(o), R: "member", U: ParseSubj(u), Ctx: Ctx{}})
+			}
+		}
+		for _, o := range []string{"folder:1", "folder:2", "folder:3", "folder:4"} {
+			for _, u := range []string{"user:anne", "user:bob"} {
+				reqs = append(reqs, Req{O: ParseObj(o), R: "viewer", U: ParseSubj(u), Ctx: Ctx{}})
+			}
+		}
+		out = append(out, scriptedCase{&Case{N: 920000 + i, Model: m, Tuples: ts}, reqs})
+	}
+	return out
+}
